@@ -110,6 +110,11 @@ func (fr *Frame) doCallInner(st *State, instr ssa.Value, c *ssa.CallCommon, pos 
 	key, fn := fr.calleeKey(c)
 	sig := c.Signature()
 	if key != "" {
+		if top := fr.top(); top.spec != nil && top.spec.Flags["assumepre"] != "" {
+			// callee preconditions stand for the representation invariant assumed by the caller's
+			// contract; the call-site clauses are checked under them
+			fr.assumeCalleePre(st, key, fn, sig, args, argTypes, c)
+		}
 		fr.atCallArgs = args
 		fr.atCall(st, key, c, pos)
 		fr.atCallArgs = nil
@@ -317,6 +322,34 @@ func paramNames(fn *ssa.Function, sig *types.Signature, invoke bool) []string {
 		names = append(names, sig.Params().At(i).Name())
 	}
 	return names
+}
+
+// assumeCalleePre assumes the preconditions of the callee's contract (flag assumepre).
+func (fr *Frame) assumeCalleePre(st *State, key string, fn *ssa.Function, sig *types.Signature, args []Term, argTypes []types.Type, c *ssa.CallCommon) {
+	fc := fr.fc
+	spec := fc.w.specs.Funcs[key]
+	if spec == nil || spec.Inline {
+		return
+	}
+	names := paramNames(fn, sig, c != nil && c.IsInvoke())
+	vars := map[string]Term{}
+	for i, n := range names {
+		if i < len(args) && n != "" && n != "_" {
+			a := args[i]
+			if fn != nil && i < len(fn.Params) {
+				a.T = fn.Params[i].Type()
+			} else if i < len(argTypes) {
+				a.T = argTypes[i]
+			}
+			vars[n] = a
+		}
+	}
+	env := &Env{fc: fc, st: st, old: st, vars: vars, pkgName: spec.Pkg}
+	for _, r := range spec.Requires {
+		if t, err := fc.evalClause(env, r); err == nil {
+			fc.assume(st, t)
+		}
+	}
 }
 
 func resultNames(spec *FuncSpec, sig *types.Signature) []string {
